@@ -152,7 +152,7 @@ def run_oracle(exe, lines, timeout=180, env=None):
         # keep sticky mode lines
         try:
             p = subprocess.run([exe], input="\n".join(pre + chunk) + "\n", stdout=subprocess.PIPE, stderr=subprocess.PIPE,
-                               text=True, timeout=timeout, env=env)
+                               text=True, timeout=min(timeout, 20 + len(chunk) // 100), env=env)
         except subprocess.TimeoutExpired as te:
             class P:   # a hang is attributed to the line being processed, like a crash
                 pass
